@@ -530,6 +530,7 @@ func (e *Engine) appendOp(st *State, sv, tv Value, site ssa.Instruction) Value {
 			}
 		}
 		o := e.newObject("append", types.Typ[types.Uint8])
+		e.countAlloc(st, newLen)
 		var arr ArrExpr = emptyArr
 		arr = e.arrCopy(arr, e.c64(0), old, s.off, s.len)
 		arr = e.arrCopy(arr, s.len, tArr, tOff, tLen)
